@@ -406,6 +406,23 @@ def _norm(case: dict) -> dict:
     return c
 
 
+def _logging_worker(orig, log_path: str):
+    """_lint_file_worker with a log line per served task (pid, file): which worker process served which file.  It replaces the
+    module attribute in the parent BEFORE the pool forks, keeps the name (tasks are pickled by reference), and calls the original."""
+    def _lint_file_worker(args):
+        try:
+            return orig(args)
+        finally:
+            try:
+                with open(log_path, "a", encoding="utf-8") as fh:
+                    fh.write(f"{os.getpid()}\t{args[0]}\n")
+            except OSError:
+                pass
+    _lint_file_worker.__module__ = orig.__module__
+    _lint_file_worker.__qualname__ = _lint_file_worker.__name__ = "_lint_file_worker"
+    return _lint_file_worker
+
+
 def _rule_tables(fresh, paths, seen) -> dict:
     """What every single registered rule does, measured through the real lint_file: for each file a new Orchestrator (new
     rule instances) whose registry is cut down to ONE of its instances at a time; whether lint_file gets as far as
@@ -664,7 +681,11 @@ def run_impl(case: dict) -> dict:
             ordered = sched is not None and orig is not None
             if sched is not None and orig is None:
                 res["notes"].append("src.orchestrator.core has no as_completed to wrap: completion order not controlled")
+            assign_log = d / "assign.log"
+            orig_worker = getattr(core, "_lint_file_worker", None)
             try:
+                if orig_worker is not None:
+                    core._lint_file_worker = _logging_worker(orig_worker, str(assign_log))
                 if ordered:
                     core.as_completed = _controlled(sched)
                 if entry == "dir":
@@ -674,6 +695,12 @@ def run_impl(case: dict) -> dict:
             finally:
                 if orig is not None:
                     core.as_completed = orig
+                if orig_worker is not None:
+                    core._lint_file_worker = orig_worker
+            res["tasks_per_worker"] = None
+            if assign_log.exists():
+                pids = [ln.split("\t", 1)[0] for ln in assign_log.read_text(encoding="utf-8").splitlines() if "\t" in ln]
+                res["tasks_per_worker"] = sorted((pids.count(x) for x in set(pids)), reverse=True)
             drain_failures()   # parent-side log lines of the parallel run are not rule failures of this process
             res["seq_exit"] = res["par_exit"] = 0
             res["sched"] = sched if ordered else list(range(len(paths)))
@@ -760,7 +787,7 @@ def coq_case(case: dict, impl: dict) -> str:
             f"c_seq_exit := {impl['seq_exit']}; c_par_exit := {impl['par_exit']} |}}")
 
 
-def _eval_shards(workdir: Path, shards: list[str], threads: int = 8):
+def _eval_shards(workdir: Path, shards: list[str], threads: int = int(os.environ.get("VERIF_C07_COQ_THREADS", "8"))):
     """like coq.eval_shards, but a shard that fails or times out is retried alone and, if it fails again, only its
     own cases stay unjudged (returned as None) instead of the whole run"""
     from concurrent.futures import ThreadPoolExecutor
@@ -861,7 +888,8 @@ def _summary(case, impl):
             "completion_order": impl["sched"] if impl["ordered"] else "uncontrolled",
             "sequential": "raises" if impl["seq"] is None else f"{len(impl['seq'])} violations",
             "parallel": "raises" if impl["par"] is None else f"{len(impl['par'])} violations",
-            "exit": [impl["seq_exit"], impl["par_exit"]], "errors": impl.get("errors", [])[:2]}
+            "exit": [impl["seq_exit"], impl["par_exit"]], "errors": impl.get("errors", [])[:2],
+            "tasks_per_worker_process": impl.get("tasks_per_worker")}
 
 
 def run(tier: str, seed: int, replay: str | None = None) -> int:
@@ -874,12 +902,18 @@ def run(tier: str, seed: int, replay: str | None = None) -> int:
                 "2*workers-3 .. 2*workers+5; entry points lint_files[_parallel] and lint_directory[_parallel] (recursive or not); targets spelled "
                 "absolute / relative / '.', the project placed under parents named like hard-coded exclusions and test markers; completion order "
                 "of the futures forced to a seeded permutation (15% uncontrolled); a few through the CLI (dry / stringly-typed / magic-numbers, "
-                "--parallel vs plain, --config, --no-recursive, JSON + exit code); results compared as multisets with multiplicity; a case is "
+                "--parallel vs plain, --config, --no-recursive, JSON + exit code); results compared as multisets with multiplicity; for every single-call case the "
+                "rule-instance level tables are measured too (each registered rule alone on each file, finalize per instance) and both runs are "
+                "compared with Model/OrchParRules.v in order; a case is "
                 "non-trivial when the file count reaches the threshold (worker processes really run); distinct = distinct case description")
     chk.trusted_base += [
-        "rule behaviour is an input of the model: per-file results (fresh Orchestrator per file) and the finalize() report are measured from the "
-        "implementation and handed to the model as tables; that a worker process which serves several tasks gives each the result of a fresh "
-        "process is validated by this correspondence, not proved",
+        "rule behaviour is an input of the model, at two levels: (table level) per-file results of a fresh Orchestrator and the finalize() report; "
+        "(rule-instance level, Model/OrchParRules.v) per registered rule what it alone reports for each file through lint_file, whether lint_file "
+        "reaches the rules, finalize() per instance - all measured from the implementation.  lint_file / _execute_rules / the finalize loops / the "
+        "parent's evidence loop are modelled and tied by templates + the rule-level stream; that a rule's report does not depend on what its "
+        "instance saw before (hypothesis report_local; for DRYRule / StringlyTypedRule it follows from the generated census: check() returns [] "
+        "on every path) and that a pooled worker gives each task the result of a fresh process (hypothesis state_irrelevant) are validated by the "
+        "rule-level and worker-history streams, not proved",
         "ProcessPoolExecutor / pickling / as_completed are oracles: the model sees the completion order as a permutation; the harness forces it by "
         "replacing src.orchestrator.core.as_completed in the parent process (no source change); worker scheduling itself is not controlled",
         "Violation.to_dict/from_dict are modelled from the generated key/field tables; dict/dataclass semantics of CPython are assumed",
@@ -896,7 +930,7 @@ def run(tier: str, seed: int, replay: str | None = None) -> int:
     else:
         cases = corpus_cases() + [gen_case(seed, i) for i in range(n_api)] + [gen_case(seed, f"cli{i}", "cli") for i in range(n_cli)]
     t0 = time.time()
-    impls = run_all(cases, procs=5)
+    impls = run_all(cases, procs=int(os.environ.get("VERIF_C07_PROCS", "5")))
     phases["implementation_s"] = round(time.time() - t0, 1)
     t0 = time.time()
     with scratch_dir("tv-c07-coq-") as wd:
@@ -924,6 +958,13 @@ def run(tier: str, seed: int, replay: str | None = None) -> int:
         chk.dist(f"max_workers:{case['k']}")
         chk.dist("files_vs_threshold:" + ("at" if n == 2 * eff else "above" if above else "below"))
         chk.dist("order:" + ("controlled" if impl["ordered"] else "uncontrolled"))
+        tpw = impl.get("tasks_per_worker")
+        if tpw:
+            # observed, not controlled: how the pool distributed the tasks over its worker processes
+            chk.dist(f"pool_worker_processes_used:{len(tpw)}")
+            chk.dist("most_tasks_served_by_one_worker:" + (str(tpw[0]) if tpw[0] < 6 else "6+"))
+            if len(tpw) > eff:
+                chk.notes.append(f"case {case['i']}: {len(tpw)} worker processes served tasks, more than the {eff} the pool was given")
         chk.dist("targets:" + (f"{len(impl['groups'])} groups" if impl.get("groups") else "one"))
         chk.dist("crossfile_report:" + ("nonempty" if impl["rep_full"] else "empty"))
         if any(not Path(rel).suffix and text.startswith("#!") and "python" in text.split("\n")[0] for rel, text in case["files"]):
